@@ -56,6 +56,9 @@ pub(crate) struct LowArgs {
     pub(crate) fixed_strings: bool,
     pub(crate) follow: bool,
     pub(crate) glob_case_insensitive: bool,
+    /// The order in which -g/--glob (`false`) and --iglob (`true`) were given
+    /// on the command line. The globs themselves are in `globs` and `iglobs`.
+    pub(crate) glob_order: Vec<bool>,
     pub(crate) globs: Vec<String>,
     pub(crate) heading: Option<bool>,
     pub(crate) hidden: bool,
